@@ -57,6 +57,9 @@ def gen_env_cfg(rng, *, multi=None, big=False, padding=None, positive=True):
             "allow_recirculation": rng.random() < 0.3,
             "machines_per_operation": [rng.randint(1, mpo_hi), mpo_hi] if rng.random() < 0.4 else 1,
             "seed": rng.randrange(1 << 20) if rng.random() < 0.7 else None,
+            # the generator's own iteration protocol (a limit for `for instance in generator`) is none of the
+            # environment's business: reset() must build an episode every time
+            "iteration_limit": rng.randint(0, 2) if rng.random() < 0.25 else None,
         }
         # recirculating / flexible generators overflow the padded spaces
         # (known finding F10); keep them a minority so that most multi-env
@@ -167,6 +170,7 @@ def make_generator(g):
         num_jobs=tuple(g["num_jobs"]), num_machines=tuple(g["num_machines"]),
         duration_range=tuple(g["duration_range"]), allow_recirculation=g["allow_recirculation"],
         machines_per_operation=tuple(mpo) if isinstance(mpo, list) else mpo, seed=g["seed"],
+        iteration_limit=g.get("iteration_limit"),
     )
 
 
